@@ -48,6 +48,7 @@ fn later_op() -> impl Strategy<Value = Op> {
         2 => any::<u16>().prop_map(Op::Restore),
         1 => any::<u16>().prop_map(Op::RmCached),
         3 => any::<u16>().prop_map(Op::CaseVariant),
+        1 => any::<u16>().prop_map(Op::ResetSoft),
     ]
 }
 
